@@ -17,6 +17,8 @@ SENT = {
     "mkstemp": {-1, "NEG"}, "open": {-1, "NEG"}, "ftruncate": {"NEG", -1}, "mmap": {"MAP_FAILED"},
     "malloc": {"NULL"}, "orc_code_region_alloc": {"NULL"}, "orc_code_region_new": {"NULL"},
     "orc_code_region_get_free_chunk": {"NULL"}, "realloc": {"NULL"},
+    # these return an error NUMBER (0 on success, a positive errno on failure), never -1
+    "posix_fallocate": {"NONZERO"}, "posix_memalign": {"NONZERO"}, "pthread_mutex_init": {"NONZERO"},
 }
 
 
